@@ -731,7 +731,7 @@ pub fn exec(p: &mut Pool, op: Op, form: Form) -> (Outcome, Expect) {
         }};
     }
     match op {
-        New => ctor!(LeanString::new(), Ok::<_, lean_string::ReserveError>(LeanString::new()), String::new()),
+        New => ctor!(LeanString::new(), Ok::<_, lean_string::ReserveError>(LeanString::default()), String::new()),
         FromStr(t) => {
             let s = texts(|x| x.src[t as usize].clone());
             ctor!(LeanString::from(s.as_str()), s.parse::<LeanString>(), s.clone())
